@@ -304,7 +304,10 @@ impl Hypercore {
             && (forall|k: int| #![trigger final(self).bitfield.bit(k)] final(self).bitfield.bit(k)
                     == (old(self).tree.length <= k < old(self).tree.length + batch@.len() || old(self).bitfield.bit(k)))
             // C13: upgrade, then have for exactly the appended range
-            && final(self).events.trace@ == old(self).events.trace@ + ev_append(old(self).tree.length, batch@.len() as u64),
+            && final(self).events.trace@ == old(self).events.trace@ + ev_append(old(self).tree.length, batch@.len() as u64)
+            // C02: the in-memory header (what the next flush persists) describes the new tree: its length and the new signature
+            && final(self).header.tree.length == final(self).tree.length
+            && final(self).tree.signature is Some && final(self).header.tree.signature@ == final(self).tree.signature->Some_0.sig_bytes(),
         // C02: data first, then the oplog entry (the commit point), then - at most - a flush
         old(self).key_pair.secret is Some && batch@.len() > 0 && r is Ok ==>
             final(self).storage.journal@.len() >= old(self).storage.journal@.len() + 2
@@ -532,6 +535,9 @@ impl Hypercore {
             // exactly the received block becomes held
             && (forall|k: int| #![trigger final(self).bitfield.bit(k)] final(self).bitfield.bit(k)
                     == (old(self).bitfield.bit(k) || (proof.block is Some && k == proof.block->Some_0.index))),
+        // C02 / C03: the in-memory header (what the next flush persists) describes the tree after an accepted upgrade, block or no block
+        r is Ok && r->Ok_0 == true && proof.upgrade is Some ==> final(self).header.tree.length == final(self).tree.length
+            && final(self).tree.signature is Some && final(self).header.tree.signature@ == final(self).tree.signature->Some_0.sig_bytes(),
         // C02: the block is written to the data file first (at the offset recorded by the verified tree nodes), then
         // the oplog entry (the commit point)
         r is Ok && r->Ok_0 == true && proof.block is Some ==>
